@@ -13,7 +13,7 @@ LEVEL = "model_checking"
 TASKS_PER_CHILD = 4
 
 CTX = {"a": 3, "b": 5, "c": 9, "x": 4, "u": 4, "a1": 11, "_a": 12}
-CTX2 = {"a": 250, "b": 0, "c": 1, "x": 7, "u": 1, "a1": 2, "_a": 65535}
+CTX2 = {"a": 250, "b": 0, "c": 0, "K": 0, "x": 7, "u": 1, "a1": 2, "_a": 65535}  # c and K are also constants: a context value of 0 still wins
 CTX3 = {"b": 5}  # lacks most identifiers
 CONSTS = {"K": 6, "c": 100, "BIG": 0xFFFFFFFFFFFFFFFF, "M1": 1}
 DEFS = "#define K 6\n#define c 100\n#define BIG 0xFFFFFFFFFFFFFFFF\n#define M1 1\nstruct S4 { uint32 a; };\nstruct S9 { uint8 a; uint64 b; };"
